@@ -14,7 +14,7 @@ class View:
 
 
 def render_owned(r, b, opts, clause="render"):
-    nested = bool(opts["nested"] and pl.is_tree(b.reg))
+    nested = bool(opts["nested"] and pl.is_tree(b.reg, roots_referenced=True))
     ropts = dict(opts, nested=nested)
     try:
         return pl.render(b.reg, ropts), nested
